@@ -11,7 +11,8 @@ CFG = dict(
               "modify_parallel_eq_sequential_ModifyFloat3", "modify_parallel_eq_sequential_ModifyFloat2", "modify_parallel_eq_sequential_ModifyFloat1",
               "scan_multiset_ScanFloat3", "scan_multiset_ScanFloat2", "scan_multiset_ScanFloat1",
               "scan_multiset_ScanPrimitives_Triangle", "scan_multiset_ScanPrimitives_Point", "scan_multiset_ScanPrimitives_LineStrip"],
-    streams=[dict(name="c10", n=dict(quick=40, thorough=0))],
+    streams=[dict(name="c10", n=dict(quick=40, thorough=0)),
+             dict(name="c10m", n=dict(quick=6, thorough=40), timeout=dict(quick=600, thorough=3600))],
     trusted=T_COMMON + ["engine F extractor /verif/go/facts/c10.go (fails on any shape it does not understand)"],
     residue=[],
     assumptions=[],
